@@ -793,6 +793,23 @@ impl Xot {
                         content,
                         span: _,
                     } => {
+                        if let Some(content) = content {
+                            // there has to be white space between the target
+                            // and the data; the tokenizer splits '<?pi+d?>'
+                            // into 'pi' and '+d'
+                            if content.start() == target.end() {
+                                let stream = tokenizer.stream();
+                                let text_pos = stream.gen_text_pos_from(content.start());
+                                let byte = content.as_str().as_bytes().first().copied().unwrap_or(b' ');
+                                return Err(ParseError::XmlParser(
+                                    xmlparser::Error::InvalidPI(
+                                        xmlparser::StreamError::InvalidSpace(byte, text_pos),
+                                        text_pos,
+                                    ),
+                                    content.start(),
+                                ));
+                            }
+                        }
                         let node_id = builder.processing_instruction(
                             target.as_str(),
                             content.map(|s| s.as_str()),
